@@ -61,7 +61,9 @@ def sampler_configs(draw, classes=CLASSES, max_d=4, target_kinds=("gauss", "gaus
     if cls == "hmc":
         cfg["hmc"] = {"eps_log": draw(st.floats(-2.0, -0.3)), "mass": draw(st.sampled_from(["default", "scalar", "vector", "matrix"])),
                       "mass_log": [draw(st.floats(-1, 1)) for _ in range(d)], "mass_corr": draw(st.floats(-0.6, 0.6)),
-                      "grad": draw(st.booleans())}
+                      "grad": draw(st.booleans()),
+                      # whole-number inverse masses may be given as Python ints / integer arrays
+                      "mass_int": draw(st.sampled_from([False, False, False, True]))}
     if cls == "ensemble":
         cfg["ens"] = {"extra_walkers": draw(st.integers(1, 6)), "alpha": draw(st.sampled_from([2.0, 1.5, 3.0, draw(st.floats(1.2, 5))]))}
     if cls in ("gibbs", "metropolis"):
@@ -174,6 +176,10 @@ def build(cfg, target=None, record=True):
                     R[i, i - 1] = R[i - 1, i] = h["mass_corr"]
                 inv_mass = R * np.outer(sd, sd)
                 inv_mass = (inv_mass + inv_mass.T) / 2
+            if h.get("mass_int") and h["mass"] == "scalar":
+                inv_mass = int(max(1, round(inv_mass)))
+            elif h.get("mass_int") and h["mass"] == "vector":
+                inv_mass = np.maximum(1, np.round(inv_mass)).astype(np.int64)
             info["inv_mass"] = inv_mass
             eps = float(np.min(s)) * 10 ** h["eps_log"]
             if inv_mass is not None:
